@@ -169,6 +169,9 @@ func decScript(b *Sx) Script {
 			pl.Ret = decBErr(p.arg1("ret"))
 			pl.Prop = sxBool(p.arg1("prop"))
 			pl.Panic = sxBool(p.arg1("panic"))
+			if e := p.arg1("early"); e != nil {
+				pl.Early = sxBool(e)
+			}
 			for _, sc := range p.arg1("status").List {
 				pl.Status = append(pl.Status, StatusCall{Addr: string(sxBytes(sc.List[0])), Err: decBErr(sc.List[1])})
 			}
